@@ -79,7 +79,12 @@ def build_graph(rng, ctx, gen):
             if pattern[0] != "lost-copy":
                 body.append(AssignBlock({z: z - one}))
             cond = z & ExprInt(rng.choice([1, 3, 3, 7]), bits)
-            body.append(AssignBlock({ctx.IRDst: ExprCond(cond, ExprLoc(tl[0], bits), ExprLoc(tl[1], bits))}))
+            last = {ctx.IRDst: ExprCond(cond, ExprLoc(tl[0], bits), ExprLoc(tl[1], bits))}
+            if rng.random() < 0.3:
+                # IRDst in the same AssignBlock as the last assignments (one-AssignBlock instructions)
+                last.update(dict(body.pop()))
+                tags.add("irdst-shared")
+            body.append(AssignBlock(last))
             blk = IRBlock(ctx.loc_db, locs[b], body)
         else:
             blk = gen.block(locs[b], tl, depth=rng.choice([1, 1, 2]))
